@@ -51,7 +51,7 @@ func init() {
 		return genFOBase(r, foShape{minClients: 1, maxClients: 6, maxKeys: 3, maxOps: 4, sleeps: true, skipRead: true, faults: true, ctxTTL: false, callerTricks: run%8 == 0})
 	}
 	gens["C04"] = func(r *rand.Rand, run int, _ string) *Scenario {
-		if run%8 == 3 {
+		if run%8 == 3 || run%8 == 7 {
 			return genC04Waiters(r)
 		}
 
